@@ -52,6 +52,7 @@ func main() {
 	tapeDir := flag.String("tapes", "", "directory to write violation tapes to")
 	nativeOv := flag.String("noverlay", "", "replay only: extra overlay entries virtual=real,...")
 	replayTimeout := flag.Int("replaytimeout", 120, "replay: seconds before the native run is killed")
+	nativeRedir := flag.Bool("nativeredirect", false, "replay: apply the -redirect table to generated copies of the package's source files, so the native twin runs against the same stubs")
 	params := flag.String("D", "", "harness parameters NAME=VALUE,...: rewrites `const NAME = ...` lines of the harness files")
 	flag.Parse()
 	hfiles := strings.Split(*harness, ",")
@@ -102,6 +103,24 @@ func main() {
 			for _, kv := range strings.Split(ovs, ",") {
 				p := strings.SplitN(kv, "=", 2)
 				repl[p[0]] = p[1]
+			}
+		}
+		if *nativeRedir && *redir != "" {
+			rd := map[string]string{}
+			for _, kv := range strings.Split(*redir, ",") {
+				p := strings.SplitN(kv, "=", 2)
+				rd[p[0]] = p[1]
+			}
+			ovl := map[string][]byte{}
+			for v, real := range repl {
+				if strings.HasSuffix(v, "_test.go") {
+					continue
+				}
+				b, _ := os.ReadFile(real)
+				ovl[v] = b
+			}
+			for v, p := range nativeRedirects(*dir, ovl, rd, tmp) {
+				repl[v] = p
 			}
 		}
 		if *instrFile != "" {
@@ -179,12 +198,21 @@ func main() {
 	load := time.Since(t0)
 	e := &Engine{prog: prog, pkg: pkg, sol: NewSolver(*z3), violations: map[string]*Violation{}, vcount: map[string]int{}, covers: map[string]int{},
 		funcs: map[string]bool{}, incomplete: map[string]int{}, ends: map[string]int{}, loopBound: *loop, maxPaths: *maxPaths, preemptBound: *pre, noinit: *noinit, detSched: *det, mapOrder: *mapOrder, redirects: map[string]string{}, vtraces: map[string][]string{}, coverModels: map[string]*Violation{}, raceOn: *raceOn, realHex: *realHex, asn1Havoc: *havoc, concreteClock: *cclock, acqOnly: *acq, debugDeadlock: os.Getenv("SYMGO_DEBUG_DEADLOCK") != ""}
+	if pkgs[0].Module != nil {
+		e.modPrefix = pkgs[0].Module.Path
+		if i := strings.Index(e.modPrefix, "/mpc/"); i > 0 { // sub-modules of the repository share the root prefix
+			e.modPrefix = e.modPrefix[:i]
+		}
+	}
 	if *shard != "" {
 		fmt.Sscanf(*shard, "%d/%d/%d", &e.shard, &e.shardN, &e.shardDepth)
 	}
 	if *redir != "" {
 		for _, kv := range strings.Split(*redir, ",") {
 			p := strings.SplitN(kv, "=", 2)
+			if strings.HasPrefix(p[0], "wrap:") {
+				continue // native replays only
+			}
 			e.redirects[p[0]] = p[1]
 		}
 	}
